@@ -189,6 +189,22 @@ PROPS = {
     ),
 }
 
+PROPS["C20"] = dict(
+    lean_targets=["BB.Props.C20"],
+    theorems=["BB.Props.C20.inv_step", "BB.Props.C20.first_immediately", "BB.Props.C20.at_most_count", "BB.Props.C20.at_most_one_after_cancel",
+              "BB.Props.C20.closed_iff_goroutine_gone", "BB.Props.C20.cancelled_goroutine_not_stuck"],
+    corr=[dict(family="attempt", quick=150, thorough=6000, mismatch_is_violation=True, no_shrink=True,
+               nontrivial=has("slow_consumer_tick_dropped", "cancel_between_recheck_and_send", "sent_after_cancel", "exit_by_recheck",
+                              "exit_by_ctxdone", "pre_cancelled", "count_reached", "recv_after_cancel"),
+               rule="attempt: LinearAttempt with count 1-5, rates 0.3-1.2 ms, receiver prompt / slow / absent, cancellation at a PRNG-chosen instant (or before the call, "
+                    "or never); hook points at the tick, before and after the context re-check, at the send / full slot and at exit, plus the receiver's events, form a "
+                    "log that the Lean transition system must accept (log lag of unlocked events is accounted for by commuting independent steps); checks: values <= count, "
+                    "timestamps non-decreasing, nothing received that was not sent, a re-check that began after cancel() returned must fail, channel closed exactly when "
+                    "the goroutine exits; non-trivial = a dropped tick (slow consumer), cancellation between re-check and send, exit through either branch, pre-cancelled")],
+    assumptions=["time.Ticker is a fair environment (ticks as environment events); real-time rates are not modelled"],
+    open_statements=["always_closed as a leadsTo theorem (proved: no stuck state after cancellation and closed <-> goroutine gone)"],
+)
+
 with_conform(PROPS["C01"], "Buffer")
 with_conform(PROPS["C02"], "Buffer")
 with_conform(PROPS["C03"], "Buffer")
